@@ -307,6 +307,102 @@ def label (cfg : Cfg) (s : State) (t : Nat) : String :=
 
 end Dist
 
+/-! ## Distributed variant with explicit names
+
+Independent worker processes find the shared Variable and the Lock on the scheduler by the
+*names* their own interpreter computes (`_build_name`, _s3.py:250-253).  `Dist` above assumes
+that all workers compute the same names; here the names are explicit, per worker. -/
+namespace DistN
+open Dist (PC After)
+
+structure State where
+  wid : Nat → Nat := fun _ => 0
+  vars : Nat → Option Nat := fun _ => none    -- scheduler variables, by name
+  deleted : Bool := false
+  locks : Nat → Option Nat := fun _ => none   -- scheduler locks, by name: holder
+  creates : Nat := 0
+  calls : List Call := []
+  pc : Nat → PC := fun _ => .start
+
+structure Cfg where
+  kind : Nat → Kind
+  worker : Nat → Nat
+  varName : Nat → Nat    -- worker ↦ name its process computes for the Variable ("MPUpload-…")
+  lockName : Nat → Nat   -- worker ↦ name its process computes for the Lock ("MPULock-…")
+
+def State.goto (s : State) (t : Nat) (p : PC) : State :=
+  { s with pc := fun i => if i = t then p else s.pc i }
+
+def State.setWid (s : State) (w : Nat) (id : Nat) : State :=
+  { s with wid := fun i => if i = w then id else s.wid i }
+
+def State.setVar (s : State) (n : Nat) (v : Option Nat) : State :=
+  { s with vars := fun i => if i = n then v else s.vars i }
+
+def State.setLock (s : State) (n : Nat) (h : Option Nat) : State :=
+  { s with locks := fun i => if i = n then h else s.locks i }
+
+def init : State := {}
+
+def step (cfg : Cfg) (s : State) (t : Nat) : State :=
+  let w := cfg.worker t
+  let vn := cfg.varName w
+  let ln := cfg.lockName w
+  match s.pc t with
+  | .start => s.goto t (if s.wid w ≠ 0 then .useAssert else .askClient)
+  | .askClient => s.goto t .get1
+  | .get1 =>
+    match s.vars vn with
+    | some id => s.goto t (.setOwn1 id)
+    | none => s.goto t .acquire
+  | .setOwn1 id => (s.setWid w id).goto t .useAssert
+  | .acquire =>
+    match s.locks ln with
+    | none => (s.setLock ln (some t)).goto t .get2
+    | some _ => s
+  | .get2 =>
+    match s.vars vn with
+    | some id => s.goto t (.setOwn2 id)
+    | none => s.goto t .initAssert
+  | .setOwn2 id => (s.setWid w id).goto t (.release .ret)
+  | .initAssert => s.goto t (if s.wid w = 0 then .create else .release .raise)
+  | .create =>
+    { s with creates := s.creates + 1, calls := .create (s.creates + 1) :: s.calls }.goto t
+      (.setId (s.creates + 1))
+  | .setId id => (s.setWid w id).goto t .readForVar
+  | .readForVar => s.goto t (.setVar (s.wid w))
+  | .setVar id => (s.setVar vn (some id)).goto t (.release .fall)
+  | .release a =>
+    (s.setLock ln none).goto t
+      (match a with | .raise => .failed | .ret => .useAssert | .fall => .endAssert)
+  | .endAssert => s.goto t (if s.wid w ≠ 0 then .useAssert else .failed)
+  | .useAssert => s.goto t (if s.wid w ≠ 0 then .readId else .failed)
+  | .readId => s.goto t (.call (s.wid w))
+  | .call id =>
+    match cfg.kind t with
+    | .write p => { s with calls := .upload p id :: s.calls }.goto t .done
+    | .fin => { s with calls := .complete id :: s.calls }.goto t .askClient2
+  | .askClient2 => s.goto t .delVar
+  | .delVar => { (s.setVar vn none) with deleted := true }.goto t .done
+  | .done => s
+  | .failed => s
+
+def runFrom (cfg : Cfg) (s : State) (sched : List Nat) : State := sched.foldl (step cfg) s
+
+def run (cfg : Cfg) (sched : List Nat) : State := runFrom cfg init sched
+
+/-- what the workers see when they all use the lock name `L` and the variable name `V` -/
+def proj (L V : Nat) (s : State) : Dist.State :=
+  { wid := s.wid, var := s.vars V, deleted := s.deleted, lock := s.locks L,
+    creates := s.creates, calls := s.calls, pc := s.pc }
+
+def label (cfg : Cfg) (s : State) (t : Nat) : String :=
+  match s.pc t with
+  | .acquire => if (s.locks (cfg.lockName (cfg.worker t))).isNone then "acq" else "acq!"
+  | _ => Dist.label { kind := cfg.kind, worker := cfg.worker } (proj 0 0 s) t
+
+end DistN
+
 /-! ## File sink (`MPUFileSink`, _mpu_fs.py:53-92) -/
 
 abbrev Bytes := List Nat
